@@ -44,6 +44,9 @@ type c16Case struct {
 	// Lazy: a successfully loaded configuration is collected from Config() only after the next document
 	// has been fed, when that document is one a fresh loader refuses (the consumer was not scheduled yet)
 	Lazy bool `json:"lazy,omitempty"`
+	// SettleMs (live variant): real time between the last reload and the lookups (work a server does on
+	// the side after a reload returned gets the chance to finish)
+	SettleMs int `json:"settle_ms,omitempty"`
 }
 
 func (d c16Doc) render(format string) []byte {
@@ -383,6 +386,9 @@ func runC16Live(t failer, c c16Case, kc map[string][]byte) {
 			last = i
 		}
 	}
+	if c.SettleMs > 0 {
+		time.Sleep(time.Duration(c.SettleMs) * time.Millisecond)
+	}
 	freshStack, err := refsrv.New(c.Docs[last].render(c.Format), opts)
 	if err != nil {
 		t.Fatalf("HARNESS-BUG: fresh stack refused a document the live one accepted: %v", err)
@@ -648,4 +654,43 @@ func inotifyCovers(dir, path string) (bool, string) {
 		}
 	}
 	return false, fmt.Sprintf("%d watches, none on the file or its directory", seen)
+}
+
+// TestC16EnumLive: fixed histories of documents loaded into a live reference stack in quick succession, whose
+// differences show at the probe addresses (a scope dropped, a key changed, filters dropped, a document with
+// thousands of users - slow to build - followed at once by a small one); after each history the live stack
+// answers like a stack freshly started with the last document.  Deterministic, both formats.
+func TestC16EnumLive(t *testing.T) {
+	a := cfggen.Config{
+		Secrets:     []cfggen.Secret{cfggen.NewSecret(cfggen.ScopeA, cfggen.KeyA, cfggen.PrefixA), cfggen.NewSecret(cfggen.ScopeB, cfggen.KeyB, cfggen.PrefixB)},
+		Users:       []cfggen.User{{Name: "alice", Scopes: []string{cfggen.ScopeA, cfggen.ScopeB}, Authenticator: cfggen.BcryptAuth("pw-alpha")}},
+		PrefixDeny:  []string{"10.1.9.0/24"},
+		PrefixAllow: []string{"10.0.0.0/8"},
+	}
+	b := cfggen.Config{Secrets: a.Secrets[:1], Users: []cfggen.User{{Name: "bob", Scopes: []string{cfggen.ScopeA}}}}
+	c := a.Clone()
+	c.Secrets[0].Secret.Key, c.Secrets[1].Secret.Key = "changed-key-A", "changed-key-B"
+	c.PrefixDeny, c.PrefixAllow = nil, nil
+	d := cfggen.Config{Secrets: []cfggen.Secret{cfggen.NewSecret(cfggen.ScopeB, "only-b", cfggen.PrefixB, "172.16.0.0/12")}, Users: []cfggen.User{{Name: "carol", Scopes: []string{cfggen.ScopeB}}}}
+	big := cfggen.Config{Secrets: []cfggen.Secret{cfggen.NewSecret(cfggen.ScopeA, "big-key-A", cfggen.PrefixA, "192.0.2.0/24"), cfggen.NewSecret(cfggen.ScopeB, "big-key-B", cfggen.PrefixB)}}
+	for i := 0; i < 6000; i++ {
+		big.Users = append(big.Users, cfggen.User{Name: fmt.Sprintf("u%05d", i), Scopes: []string{cfggen.ScopeA, cfggen.ScopeB}, Authenticator: cfggen.BcryptAuth("pw-alpha"),
+			Commands: []cfggen.Command{{Name: "show", Match: []string{"version", "clock"}, Action: cfggen.ActionPermit}}})
+	}
+	histories := [][]cfggen.Config{{a, b}, {a, c}, {a, d}, {b, a}, {a, b, c}, {a, c, d, b}, {a, big, b}, {b, big, d}, {a, big, c, big, d}, {big, a}, {a, b, a, c, a, d}}
+	for _, format := range []string{"yaml", "json"} {
+		for _, h := range histories {
+			ev.Eval()
+			cse := c16Case{Format: format, Via: "unmarshal"}
+			if len(h) > 2 && len(h[1].Users) > 1000 {
+				cse.SettleMs = 500
+			}
+			for _, doc := range h {
+				cse.Docs = append(cse.Docs, c16Doc{Kind: "valid", Cfg: doc})
+			}
+			journal("C16", cse)
+			runC16Live(t, cse, nil)
+			ev.Class("live-variant:fixed-history")
+		}
+	}
 }
